@@ -355,7 +355,8 @@ class Resolver:
                     return {Src("double", True, None, "np.linspace")}
                 return unk("np.arange without dtype (depends on the argument types)")
             dt = self.dtype_of_node(dtn, fn, cls)
-            return {Src(dt, True, None, f"np.arange(dtype={dt})")}
+            shp = (core.src(c.args[0]),) if f == "np.arange" and len(c.args) == 1 else None
+            return {Src(dt, True, shp, f"np.arange(dtype={dt})")}
         if f in ("np.hstack", "np.vstack", "np.concatenate", "np.dot", "np.transpose", "np.linalg.inv", "np.rint", "np.unique", "np.prod", "np.sum", "np.sqrt", "np.abs", "np.where", "np.linalg.norm", "np.multiply", "np.extract", "np.invert"):
             if f in ("np.linalg.inv", "np.linalg.norm", "np.sqrt"):
                 return {Src("double", True if f != "np.transpose" else None, None, f)}
